@@ -43,6 +43,7 @@ RULE = (
     "SSC-only property in a non-absent state and (a non-default mapping or a template or a chart); distinct = "
     "distinct canonical JSON (enumerated part: distinct (member, mapping))"
 )
+RULE += " " + "Added after the seeding rounds: state 'near-default' - a value that differs from a non-empty default only by an inner blank, one character more or less, or letter case (refused under ERROR_UNLESS_DEFAULT)."
 ASSUMPTIONS = [
     "the tables of SSC-only properties and their kinds are transcribed from the docstrings of SSCSimfile/SSCChart and docs/source/known-properties.rst",
     "SMSimfile.blank() / SMChart.blank() are the documented default templates and are read through the public API",
